@@ -337,9 +337,6 @@ package deprecatedstate
 //@   trusted
 // (the closer returned by storage() commits the trie; it is assumed not to call back into the
 // functions this contract counts)
-//@ func (*State).storage
-//@   trusted
-//@   ensures effectfree(result1)
 //@ func (*State).updateContracts
 //@   trusted
 //@   logged as applyDiff
